@@ -251,6 +251,21 @@ do_email (long *v, int nv)
         int rc = r->rc, idn = r->idn_rc;
         int fl = (r->is_ipv4 ? 1 : 0) | (r->is_ipv6 ? 2 : 0) | (r->is_domain ? 4 : 0);
         int eexp = exp, bad = 0;
+#ifdef EAV_EXTRA
+        /* C16: lpart / domain reproduce the two halves of an accepted address, NULL when syntactically invalid */
+        if (rc >= 0 && exp != 2) {
+            int dl = n - at, lit = (at < n && b[at] == '['), okx = r->lpart != NULL && r->domain != NULL;
+            if (okx) {
+                okx = (int) strlen (r->lpart) == at - 1 && memcmp (r->lpart, p, at - 1) == 0;
+                if (lit) okx = okx && (int) strlen (r->domain) == dl - 2 && memcmp (r->domain, p + at + 1, dl - 2) == 0;
+                else okx = okx && (int) strlen (r->domain) == dl && memcmp (r->domain, p + at, dl) == 0;
+            }
+            if (!okx) viol ("email", "extra strings", mode, ob * 2 + tld, b, n, 1, r->lpart != NULL, r->domain != NULL);
+        } else if (exp == 0 && erc == NOPIN && eflag == 0 && (r->lpart != NULL || r->domain != NULL))
+            viol ("email", "extra strings set on a syntactically invalid address", mode, ob * 2 + tld, b, n, 0, r->lpart != NULL, r->domain != NULL);
+        else if (exp == 3 && rc < 0 && fl == 0 && (r->lpart != NULL || r->domain != NULL) && rc != -EEAV_DOMAIN_NOT_FQDN && rc != -EEAV_TLD_INVALID)
+            viol ("email", "extra strings set on a rejected domain", mode, ob * 2 + tld, b, n, 0, r->lpart != NULL, r->domain != NULL);
+#endif
         eav_result_free (r);
         cnt.calls++; cnt.checked++; if (exp != 2) cnt.pinned++;
         rcs[tld][m] = rc; fls[tld][m] = fl;
